@@ -20,7 +20,7 @@
 (*  HInit/HNext  the world life cycle over two handles (Create / Release / *)
 (*               Batch / Single); a history variable is replayed.          *)
 (***************************************************************************)
-EXTENDS KS, Json, SequencesExt
+EXTENDS KS, Json, SequencesExt, IOUtils
 
 CONSTANTS MaxLen,      \* longest property list
           MaxHist,     \* longest life-cycle history
@@ -179,12 +179,15 @@ Single(h, i, d, a) == /\ bound[h] # 0
                       /\ UNCHANGED bound
                       /\ hist' = Append(hist, SingleStep(h, bound[h], i, d, a))
 
-HNext == /\ Len(hist) < MaxHist
-         /\ UNCHANGED props
-         /\ \/ \E h \in Handles, w \in HWorlds : Create(h, w)
-            \/ \E h \in Handles : Release(h)
-            \/ \E h \in Handles, i \in HProbes, d \in {2, 3}, ps \in HLists : Batch(h, i, d, ps)
-            \/ \E h \in Handles, i \in HProbes, d \in {2, 3}, a \in {PT, PC(1), PG(0, 2)} : Single(h, i, d, a)
+(* a history is emitted by its own final step (so that simulation emits the path it walked, not every candidate successor) *)
+Finish == Len(hist) = MaxHist /\ props = <<>> /\ props' = <<PT>> /\ UNCHANGED <<hist, bound>>
+HNext == \/ Finish
+         \/ /\ Len(hist) < MaxHist
+            /\ UNCHANGED props
+            /\ \/ \E h \in Handles, w \in HWorlds : Create(h, w)
+               \/ \E h \in Handles : Release(h)
+               \/ \E h \in Handles, i \in HProbes, d \in {2, 3}, ps \in HLists : Batch(h, i, d, ps)
+               \/ \E h \in Handles, i \in HProbes, d \in {2, 3}, a \in {PT, PC(1), PG(0, 2)} : Single(h, i, d, a)
 
 (* Prop: an abstract query result is a function of the bound file only -- every query step of a
    history carries the reference prefix of the world its handle is bound to at that moment *)
@@ -192,5 +195,56 @@ HistoryWellFormed ==
   \A k \in 1..Len(hist) : hist[k].op = "q" => \E w \in HWorlds, i \in HProbes, d \in {2,3} : hist[k].pre = Target(w, i, d).pre
 
 HistBehaviour == [id |-> <<"hist", Len(hist)>>, labels |-> <<"history">>, steps |-> hist]
-EmitHist == Len(hist) < MaxHist \/ PrintT(<<"B", ToJson(HistBehaviour)>>)
+EmitHist == props = <<>> \/ PrintT(<<"B", ToJson(HistBehaviour)>>)
+
+(***************************************************************************)
+(* Opaque-file machine: the repository's own world files (every model      *)
+(* type, variable depth surfaces, different global constants) as file ids  *)
+(* 1..NF with NP query targets each (the points of their own .dat files;   *)
+(* the driver defines target list "F<f>" and the references                *)
+(* "F/<f>/<i>/<prop>", each computed in a process of its own so that no    *)
+(* other world has ever been touched there).  Three handles; the history   *)
+(* interleaves worlds of different files alive at the same time.           *)
+(***************************************************************************)
+NF == atoi(IF "C01_NF" \in DOMAIN IOEnv THEN IOEnv.C01_NF ELSE "0")
+NP == atoi(IF "C01_NP" \in DOMAIN IOEnv THEN IOEnv.C01_NP ELSE "0")
+FHandles == {1, 2, 3}
+FAlphabet == <<PT, PC(0), PC(1), PG(0, 2), PTag, PV>>
+FLists == {<<PT>>, <<PV, PT, PC(0)>>, <<PC(1), PTag, PG(0, 2), PV>>, <<PG(0, 2), PG(0, 2), PT>>}
+FName(f) == "F" \o ToString(f)
+FPre(f, i) == "F/" \o ToString(f) \o "/" \o ToString(i) \o "/"
+FBatchStep(h, f, i, ps) ==
+   [op |-> "q", h |-> h, tsel |-> <<FName(f), i>>, pre |-> FPre(f, i), props |-> ps, may_throw |-> TRUE,
+    expect |-> <<[k |-> "len", n |-> Total(ps)], [k |-> "size"]>>
+               \o [j \in 1..Len(ps) |-> [k |-> "bits", at |-> Offset(ps, j), n |-> Size(ps[j]), ref |-> PropName(ps[j])]]]
+FSingleStep(h, f, i, a) ==
+   [op |-> "q", h |-> h, tsel |-> <<FName(f), i>>, pre |-> FPre(f, i), props |-> <<a>>, may_throw |-> TRUE,
+    via |-> CASE a[1] = 1 -> "temperature" [] a[1] = 2 -> "composition" [] a[1] = 3 -> "grains",
+    expect |-> <<[k |-> "len", n |-> Size(a)], [k |-> "bits", at |-> 0, n |-> Size(a), ref |-> PropName(a)]>>]
+
+FInit == bound = [h \in FHandles |-> 0] /\ hist = <<>> /\ props = <<>>
+FCreate(h, f) == /\ bound[h] = 0 /\ bound' = [bound EXCEPT ![h] = f]
+                 /\ hist' = Append(hist, [op |-> "create", h |-> h, doc |-> FName(f), default_seed |-> TRUE])
+FRelease(h) == /\ bound[h] # 0 /\ bound' = [bound EXCEPT ![h] = 0]
+               /\ hist' = Append(hist, [op |-> "release", h |-> h])
+FBatch(h, i, ps) == /\ bound[h] # 0 /\ UNCHANGED bound /\ hist' = Append(hist, FBatchStep(h, bound[h], i, ps))
+FSingle(h, i, a) == /\ bound[h] # 0 /\ UNCHANGED bound /\ hist' = Append(hist, FSingleStep(h, bound[h], i, a))
+FNext == \/ Finish
+         \/ /\ Len(hist) < MaxHist /\ UNCHANGED props
+            /\ \/ \E h \in FHandles, f \in 1..NF : FCreate(h, f)
+               \/ \E h \in FHandles : FRelease(h)
+               \/ \E h \in FHandles, i \in 1..NP, ps \in FLists : FBatch(h, i, ps)
+               \/ \E h \in FHandles, i \in 1..NP, a \in {PT, PC(0), PG(0, 2)} : FSingle(h, i, a)
+EmitFile == props = <<>> \/ PrintT(<<"B", ToJson([id |-> <<"files", Len(hist)>>, labels |-> <<"file-history">>, steps |-> hist])>>)
+
+(* all files of a chunk alive at once, queried round-robin: every target, the full alphabet batched *)
+Chunk(c, size) == {f \in 1..NF : (f - 1) \div size = c}
+RoundRobin(c, size) ==
+  LET fs == SetToSeq(Chunk(c, size))
+      all == [k \in 1..Len(FAlphabet) |-> FAlphabet[k]]
+  IN [id |-> <<"alive", c>>, labels |-> <<"all-alive">>,
+      steps |-> [k \in 1..Len(fs) |-> [op |-> "create", h |-> k, doc |-> FName(fs[k]), default_seed |-> TRUE]]
+                \o FlattenSeq([i \in 1..NP |-> [k \in 1..Len(fs) |-> FBatchStep(k, fs[k], i, all)]])
+                \o FlattenSeq([i \in 1..NP |-> [k \in 1..Len(fs) |-> FSingleStep(Len(fs) + 1 - k, fs[Len(fs) + 1 - k], i, PT)]])]
+EmitRoundRobin == \A c \in 0..((NF - 1) \div 8) : PrintT(<<"B", ToJson(RoundRobin(c, 8))>>)
 =============================================================================
